@@ -1,7 +1,7 @@
 # C10 — refcounted caches
 PROPS["C10"] = dict(
     props_file="Properties/C10.v",
-    harnesses=[dict(cmd="refcache", mod="root", model="Model.Refcache", quick=800, thorough=40000, shard=800,
+    harnesses=[dict(cmd="refcache", mod="root", model="Model.Refcache", quick=800, thorough=20000, shard=800,
                     require=["kind.lru", "kind.ttl", "op.add", "op.get", "op.rel", "op.rel.evict", "op.remove", "op.expire",
                              "result.add.existing", "result.get.miss", "result.callback.add", "result.callback.rel",
                              "result.callback.remove", "result.callback.expire"])],
